@@ -18,6 +18,7 @@ import (
 	"math/rand"
 
 	"gopkg.in/src-d/go-git.v4/plumbing"
+	"gopkg.in/src-d/go-git.v4/plumbing/filemode"
 	"gopkg.in/src-d/go-git.v4/plumbing/object"
 	"gopkg.in/src-d/hercules.v10/leaves"
 	api "gopkg.in/src-d/hercules.v10/verifapi/c11"
@@ -35,25 +36,123 @@ type mfile struct {
 	from, to int
 	act      string // mod, ins, del
 	a, b     []byte
+	ma, mb   int // entry modes of the two sides (field md, octal digits written as a decimal number); 0 = 100644
+	oh       *plumbing.Hash // synthetic insertions of the burndown consumer only: the hash of the new side (not part of a case)
 }
 
 type minput struct {
 	kind  string
 	cfgs  []mcfg
 	files []mfile
+	hp    int // field hp: k > 0 = all blob hashes of the case share their first k bytes, k < 0 = their last -k bytes; 0 = real git hashes
 }
 
-func gitHash(data []byte) plumbing.Hash { return plumbing.ComputeHash(plumbing.BlobObject, data) }
+// hashPrefix is the option hp of the case being run (the harness is single threaded)
+var hashPrefix int
 
-func pname(k int) string { return fmt.Sprintf("p%d", k) }
+var hashMask = plumbing.NewHash("c0ffee11c0ffee22c0ffee33c0ffee44c0ffee55")
+
+func realHash(data []byte) plumbing.Hash { return plumbing.ComputeHash(plumbing.BlobObject, data) }
+
+// gitHash is the hash a blob is known under: its real git hash, or (option hp) the real hash with the first / last
+// |hp| <= 16 bytes overwritten by a constant, so that all hashes of a case agree in that many bytes while different
+// contents keep different hashes
+func gitHash(data []byte) plumbing.Hash {
+	h := realHash(data)
+	k := hashPrefix
+	if k > 16 {
+		k = 16
+	}
+	if k < -16 {
+		k = -16
+	}
+	for i := 0; i < k; i++ {
+		h[i] = hashMask[i]
+	}
+	for i := 0; i < -k; i++ {
+		h[19-i] = hashMask[19-i]
+	}
+	return h
+}
+
+// sideHash: a submodule entry (mode 160000) carries the hash of a commit of another repository; the blob cache holds an
+// empty dummy blob under that hash.  The hash is derived from the position of the entry, so that the two sides of a
+// submodule bump have DIFFERENT hashes and the same (empty) data.
+func (f mfile) sideHash(side int) plumbing.Hash {
+	mode, data, name := f.ma, f.a, f.from
+	if side == 1 {
+		mode, data, name = f.mb, f.b, f.to
+		if f.oh != nil {
+			return *f.oh
+		}
+	}
+	if mode == 160000 {
+		return gitHash([]byte(fmt.Sprintf("submodule %d %d %d\n", f.ci, name, side)))
+	}
+	return gitHash(data)
+}
+
+// special path names (indices from 1000): names that differ only in bytes a normalisation would remove or unify (case,
+// white space, byte order mark, invalid UTF-8 vs U+FFFD, NFC vs NFD, doubled separators) and names that are prefixes /
+// suffixes of each other; consecutive groups are separated by "" (never used as a name)
+var specialNames = []string{
+	"a", "A", "",
+	"b", " b", "b ", "b\t", "b\n", "",
+	"dir/c", "dir/C", "DIR/c", "dir//c", "dir/./c", "./dir/c", "",
+	"\xc3\xa9", "e\xcc\x81", "\xc3\x89", "",
+	"d\xff", "d\xef\xbf\xbd", "d\xc3", "d\xfe", "d?", "",
+	"\xef\xbb\xbff", "f", "\xef\xbf\xbdf", "",
+	"q", "q1", "q10", "q100", "q01", "",
+	"x/y", "x/y2", "xx/y", "x/yy", "y", "x-y", "",
+	"g.go", "g.go~", "g.g", "g.GO", "g..go", "",
+	"h\xc2\xa0i", "h i", "h\xe3\x80\x80i", "h\xe2\x80\xa8i", "hi", "h  i", "",
+	"j\x00k", "j", "j\x00", "",
+}
+
+func nameGroups() [][]int {
+	var res [][]int
+	var cur []int
+	for i, n := range specialNames {
+		if n == "" {
+			if len(cur) > 0 {
+				res = append(res, cur)
+			}
+			cur = nil
+			continue
+		}
+		cur = append(cur, 1000+i)
+	}
+	if len(cur) > 0 {
+		res = append(res, cur)
+	}
+	return res
+}
+
+func pname(k int) string {
+	if k >= 1000 && k-1000 < len(specialNames) && specialNames[k-1000] != "" {
+		return specialNames[k-1000]
+	}
+	return fmt.Sprintf("p%d", k)
+}
+
+func fmode(m int) filemode.FileMode {
+	if m == 0 {
+		return filemode.Regular
+	}
+	fm, err := filemode.New(fmt.Sprintf("%d", m))
+	if err != nil {
+		return filemode.Regular
+	}
+	return fm
+}
 
 func (f mfile) change() *object.Change {
 	ch := &object.Change{}
 	if f.act != "ins" {
-		ch.From = object.ChangeEntry{Name: pname(f.from), TreeEntry: object.TreeEntry{Name: pname(f.from), Mode: 0100644, Hash: gitHash(f.a)}}
+		ch.From = object.ChangeEntry{Name: pname(f.from), TreeEntry: object.TreeEntry{Name: pname(f.from), Mode: fmode(f.ma), Hash: f.sideHash(0)}}
 	}
 	if f.act != "del" {
-		ch.To = object.ChangeEntry{Name: pname(f.to), TreeEntry: object.TreeEntry{Name: pname(f.to), Mode: 0100644, Hash: gitHash(f.b)}}
+		ch.To = object.ChangeEntry{Name: pname(f.to), TreeEntry: object.TreeEntry{Name: pname(f.to), Mode: fmode(f.mb), Hash: f.sideHash(1)}}
 	}
 	return ch
 }
@@ -79,6 +178,8 @@ func (in minput) cfg(k int) mcfg {
 }
 
 func runMulti(in minput) (obs []Sx) {
+	hashPrefix = in.hp
+	defer func() { hashPrefix = 0 }()
 	fd := &api.FileDiff{}
 	fd.Initialize(nil)
 	perFile := make([]Sx, len(in.files))
@@ -101,10 +202,10 @@ func runMulti(in minput) (obs []Sx) {
 		renames := false
 		for _, f := range group {
 			if f.act != "ins" {
-				cache[gitHash(f.a)] = blob(gitHash(f.a), f.a)
+				cache[f.sideHash(0)] = blob(f.sideHash(0), f.a)
 			}
 			if f.act != "del" {
-				cache[gitHash(f.b)] = blob(gitHash(f.b), f.b)
+				cache[f.sideHash(1)] = blob(f.sideHash(1), f.b)
 			}
 			if f.act == "mod" && f.from != f.to {
 				renames = true
@@ -165,7 +266,7 @@ func runMulti(in minput) (obs []Sx) {
 				continue
 			}
 			reported[pname(f.to)] = true
-			ba, bb := cache[gitHash(f.a)], cache[gitHash(f.b)]
+			ba, bb := cache[f.sideHash(0)], cache[f.sideHash(1)]
 			o := diffObs(data, ba, bb, f.a, f.b, cfg.ws)
 			// the consumer, per file: a fresh BurndownAnalysis sees the old blob as an insertion under the old name, then
 			// this change with the results of the whole commit
@@ -173,7 +274,8 @@ func runMulti(in minput) (obs []Sx) {
 			_, p := Catch(func() {
 				an := &leaves.BurndownAnalysis{Granularity: 30, Sampling: 30}
 				an.Initialize(nil)
-				ins := mfile{act: "ins", to: f.from, b: f.a}
+				oldHash := f.sideHash(0)
+				ins := mfile{ci: f.ci, act: "ins", to: f.from, b: f.a, mb: f.ma, oh: &oldHash}
 				d1 := map[string]interface{}{
 					api.DependencyAuthor: 0, api.DependencyTick: 0, api.DependencyIsMerge: false,
 					api.DependencyBlobCache:   cache,
@@ -220,7 +322,8 @@ func runMulti(in minput) (obs []Sx) {
 				first := object.Changes{}
 				for _, f := range group {
 					if f.act != "ins" {
-						ins := mfile{act: "ins", to: f.from, b: f.a}
+						oldHash := f.sideHash(0)
+						ins := mfile{ci: f.ci, act: "ins", to: f.from, b: f.a, mb: f.ma, oh: &oldHash}
 						first = append(first, ins.change())
 					}
 				}
@@ -276,7 +379,11 @@ func emitMulti(c *Config, in minput) {
 	files := make([]Sx, len(in.files))
 	perCommit := map[int]int{}
 	for i, f := range in.files {
-		files[i] = T("f", T("ci", I(f.ci)), T("nm", I(f.from), I(f.to)), T("act", A(f.act)), pairText(f.a, f.b))
+		if f.ma != 0 || f.mb != 0 {
+			files[i] = T("f", T("ci", I(f.ci)), T("nm", I(f.from), I(f.to)), T("act", A(f.act)), T("md", I(f.ma), I(f.mb)), pairText(f.a, f.b))
+		} else {
+			files[i] = T("f", T("ci", I(f.ci)), T("nm", I(f.from), I(f.to)), T("act", A(f.act)), pairText(f.a, f.b))
+		}
 		if f.act == "mod" && len(f.a) > 0 && len(f.b) > 0 && string(f.a) != string(f.b) {
 			perCommit[f.ci]++
 		}
@@ -286,6 +393,10 @@ func emitMulti(c *Config, in minput) {
 		if n >= 2 {
 			nt = true
 		}
+	}
+	if in.hp != 0 {
+		c.Emit(T("kind", A(in.kind)), T("nt", B(nt)), T("hp", I(in.hp)), T("cfgs", cfgs...), T("files", files...), T("obs", obs...))
+		return
 	}
 	c.Emit(T("kind", A(in.kind)), T("nt", B(nt)), T("cfgs", cfgs...), T("files", files...), T("obs", obs...))
 }
@@ -320,6 +431,9 @@ func parseMulti(cs Sx) minput {
 	if f, ok := cs.Field("kind"); ok && len(f.Args()) == 1 {
 		in.kind = f.Args()[0].Atom
 	}
+	if f, ok := cs.Field("hp"); ok && len(f.Args()) == 1 {
+		in.hp = f.Args()[0].Int()
+	}
 	if f, ok := cs.Field("cfgs"); ok {
 		for _, g := range f.Args() {
 			a := g.Args()
@@ -339,6 +453,9 @@ func parseMulti(cs Sx) minput {
 			}
 			if g, ok := x.Field("act"); ok {
 				mf.act = g.Args()[0].Atom
+			}
+			if g, ok := x.Field("md"); ok && len(g.Args()) == 2 {
+				mf.ma, mf.mb = g.Args()[0].Int(), g.Args()[1].Int()
 			}
 			p := parseCase(x)
 			mf.a, mf.b = p.a, p.b
@@ -500,6 +617,7 @@ func genCommit(r *rand.Rand, shape int, ci int) (string, []mfile) {
 	if r.Intn(3) == 0 {
 		r.Shuffle(len(fs), func(i, j int) { fs[i], fs[j] = fs[j], fs[i] })
 	}
+	decorate(r, fs)
 	return kind, fs
 }
 
@@ -615,8 +733,12 @@ func generateMulti(c *Config) {
 			prev = fs
 			in.files = append(in.files, fs...)
 		}
+		if r.Intn(5) == 0 {
+			in.hp = hashPrefixes[r.Intn(len(hashPrefixes))]
+		}
 		emitMulti(c, in)
 	}
+	generateMulti4(c)
 }
 
 // MainMulti is the body of cmd/c11multi.
